@@ -343,9 +343,28 @@ func (tc *typechecker) typeof(expr ast.Expression, typeExpected bool) *typeInfo 
 				panic(tc.errorf(expr, "cannot take the address of %s", expr.Expr))
 			}
 			ti.Type = tc.types.PointerTo(t.Type)
-			// When taking the address of a variable, such variable must be
-			// marked as "indirect".
-			if ident, ok := expr.Expr.(*ast.Identifier); ok {
+			// When taking the address of a variable, of a field of a struct
+			// variable or of an element of an array variable, such variable
+			// must be marked as "indirect".
+			operand := expr.Expr
+			for {
+				var x ast.Expression
+				var kind reflect.Kind
+				switch e := operand.(type) {
+				case *ast.Selector:
+					x, kind = e.Expr, reflect.Struct
+				case *ast.Index:
+					x, kind = e.Expr, reflect.Array
+				}
+				if x == nil {
+					break
+				}
+				if xt := tc.compilation.typeInfos[x]; xt == nil || xt.Type == nil || xt.Type.Kind() != kind {
+					break
+				}
+				operand = x
+			}
+			if ident, ok := operand.(*ast.Identifier); ok {
 				if _, decl, ok := tc.scopes.LookupInFunc(ident.Name); ok {
 					tc.compilation.indirectVars[decl] = true
 				}
